@@ -140,12 +140,90 @@ def tmle_targets():
     return out
 
 
+class _MeanRewrite(ast.NodeTransformer):
+    """np.mean(X) / np.nanmean(X) of a bare name -> the scalar name mean_X; self.df[self.outcome] -> y"""
+    def visit_Call(self, n):
+        self.generic_visit(n)
+        if (isinstance(n.func, ast.Attribute) and isinstance(n.func.value, ast.Name) and n.func.value.id == 'np'
+                and n.func.attr in ('mean', 'nanmean') and len(n.args) == 1 and not n.keywords
+                and isinstance(n.args[0], ast.Name)):
+            return ast.copy_location(ast.Name(id='mean_' + n.args[0].id, ctx=ast.Load()), n)
+        return n
+
+    def visit_Subscript(self, n):
+        if ast.unparse(n) == 'self.df[self.outcome]':
+            return ast.copy_location(ast.Name(id='y', ctx=ast.Load()), n)
+        self.generic_visit(n)
+        return n
+
+
+def ic_targets():
+    """per-row influence-curve expressions: the four `ic = np.where(delta == 1, ..)` of TMLE.fit (in source order:
+    ATE, RD, RR, OR) and the two of aipw_calculator (difference: the argument of nanvar; ratio: `ic = ..`).
+    Sample means enter as scalar parameters mean_<name>."""
+    TM = os.path.join(REPO, 'zepid/causal/doublyrobust/TMLE.py')
+    fn = find_function(ast.parse(open(TM).read()), 'TMLE.fit')
+    hits = [s for s in ast.walk(fn) if isinstance(s, ast.Assign) and len(s.targets) == 1
+            and isinstance(s.targets[0], ast.Name) and s.targets[0].id == 'ic']
+    hits.sort(key=lambda s: s.lineno)
+    if len(hits) != 4:
+        raise TranslateError('expected four assignments to ic in TMLE.fit, found %d' % len(hits))
+    out = []
+    for nm, s in zip(('ate', 'rd', 'rr', 'or'), hits):
+        v = _MeanRewrite().visit(ast.parse(ast.unparse(s.value), mode='eval').body)
+        params = [p for p in _free_names(v) if p not in ('np', 'delta', 'self')]
+        tr = FnTranslator('tmle_ic_' + nm, params, row_bool='delta', self_attrs=True)
+        tr.defined.add('delta')
+        tr.returns = [('point', tr.expr(v))]
+        out.append(Translated(tr))
+    fn = find_function(ast.parse(open(CUTILS).read()), 'aipw_calculator')
+    # ratio: the single `ic = ...`; needs py_o = a*py_a + (1-a)*py_n first
+    ics = [s for s in ast.walk(fn) if isinstance(s, ast.Assign) and len(s.targets) == 1
+           and isinstance(s.targets[0], ast.Name) and s.targets[0].id == 'ic']
+    pyo = [s for s in ast.walk(fn) if isinstance(s, ast.Assign) and len(s.targets) == 1
+           and isinstance(s.targets[0], ast.Name) and s.targets[0].id == 'py_o']
+    if len(ics) != 1 or len(pyo) != 1:
+        raise TranslateError('expected one ic and one py_o assignment in aipw_calculator')
+    v = _MeanRewrite().visit(ast.parse(ast.unparse(ics[0].value), mode='eval').body)
+    vo = pyo[0].value
+    params = sorted((set(_free_names(v)) | set(_free_names(vo))) - {'np', 'py_o', 'a'})
+    tr = FnTranslator('aipw_ic_rr', params, row_bool='a')
+    tr.defined.add('a')
+    tr.bind('py_o', tr.expr(_IndA().visit(ast.parse(ast.unparse(vo), mode='eval').body)))
+    tr.returns = [('point', tr.expr(_IndA().visit(v)))]
+    out.append(Translated(tr))
+    # difference: var = np.nanvar(<expr>, ddof=1) / y.shape[0] in the unweighted, no-splits branch
+    nv = [s for s in ast.walk(fn) if isinstance(s, ast.Assign) and len(s.targets) == 1
+          and isinstance(s.targets[0], ast.Name) and s.targets[0].id == 'var'
+          and ast.unparse(s.value).startswith('np.nanvar(y1 - y0')]
+    if len(nv) != 1:
+        raise TranslateError('expected one `var = np.nanvar(y1 - y0 ..` in aipw_calculator, found %d' % len(nv))
+    call = nv[0].value.left
+    kw = {k.arg: ast.unparse(k.value) for k in call.keywords}
+    if kw != {'ddof': '1'} or ast.unparse(nv[0].value.right) != 'y.shape[0]':
+        raise TranslateError('nanvar call shape changed: %s' % ast.unparse(nv[0].value))
+    arg = call.args[0]
+    tr = FnTranslator('aipw_ic_rd', _free_names(arg))
+    tr.returns = [('point', tr.expr(arg))]
+    out.append(Translated(tr))
+    return out
+
+
+class _IndA(ast.NodeTransformer):
+    """the treatment column `a` used arithmetically -> the indicator of the row boolean"""
+    def visit_Name(self, n):
+        if n.id == 'a':
+            return ast.copy_location(ast.Name(id='__inda__', ctx=ast.Load()), n)
+        return n
+
+
 GROUPS = {
     'tmle': tmle_targets,
     'calc': calc_targets,
     'rdbounds': bounds_targets,
     'weights': weights_targets,
     'aipw': aipw_targets,
+    'ic': ic_targets,
 }
 
 
